@@ -127,3 +127,11 @@ package risor
 //@ props C03
 //@ trusted callpre
 //@ callpre[C03.call.obj.nonnil] Type: recv != nil
+
+// C11: the options of a configuration only RECORD what the host asked for; the effective environment is built once,
+// by init(), after every option has been applied (NewConfig) - so the result does not depend on the order of the
+// options. init() and the accessors that call it (GlobalNames, Globals, CombinedGlobals, VMOpts, CompilerOpts) are
+// referenced by the entry points and by each other, and by nothing else: in particular by no option closure (seed
+// C11i built the local importer inside WithLocalImporter with cfg.GlobalNames(): every deny / override option that
+// followed it in the list was recorded and never applied).
+//@ scan[C11.init.callers] C11 extcalls github.com/risor-io/risor.(*Config).init,github.com/risor-io/risor.(*Config).GlobalNames,github.com/risor-io/risor.(*Config).Globals,github.com/risor-io/risor.(*Config).CombinedGlobals,github.com/risor-io/risor.(*Config).VMOpts,github.com/risor-io/risor.(*Config).CompilerOpts: (*Config).CombinedGlobals (*Config).CompilerOpts (*Config).GlobalNames (*Config).Globals (*Config).VMOpts Call Eval EvalCode NewConfig
